@@ -128,6 +128,29 @@ Theorem C14_from_json_full_ok : forall (A B : Type) (d : B) o (inp : list (list 
 Proof. exact from_json_full_ok. Qed.
 Print Assumptions C14_from_json_full_ok.
 
+(** Binary association records: [from_records] hands the symmetric matrix of binary records to the association
+    parameters; every site pair A_i-B_j ends up with the cross-association value of the record of the pair (i,j) (or keeps
+    the combining rule when the record has none) — the same for A_i-B_j and A_j-B_i, and whatever the order of the components. *)
+Theorem C14_assoc_override_matrix : forall (V : Type) hasA hasB n (m : nat -> nat -> option V) i j, (forall i j, m i j = m j i) ->
+  (i < n)%nat -> (j < n)%nat -> hasA i = true -> hasB j = true ->
+  ov_get (overrides_of hasA hasB (matrix_recs n m)) i j = m i j.
+Proof. exact assoc_override_matrix. Qed.
+Print Assumptions C14_assoc_override_matrix.
+
+Theorem C14_assoc_override_sym : forall (V : Type) hasA hasB n (m : nat -> nat -> option V) i j, (forall i j, m i j = m j i) ->
+  (i < n)%nat -> (j < n)%nat -> hasA i = true -> hasB j = true -> hasA j = true -> hasB i = true ->
+  ov_get (overrides_of hasA hasB (matrix_recs n m)) i j = ov_get (overrides_of hasA hasB (matrix_recs n m)) j i.
+Proof. exact assoc_override_sym. Qed.
+Print Assumptions C14_assoc_override_sym.
+
+Theorem C14_assoc_override_relabel : forall (V : Type) hasA hasB n (m : nat -> nat -> option V) (p q : nat -> nat) i j,
+  (forall i j, m i j = m j i) -> (forall k, (k < n)%nat -> (p k < n)%nat) -> (forall k, q (p k) = k) ->
+  (i < n)%nat -> (j < n)%nat -> hasA i = true -> hasB j = true ->
+  ov_get (overrides_of (fun k => hasA (q k)) (fun k => hasB (q k)) (matrix_recs n (fun a b => m (q a) (q b)))) (p i) (p j)
+  = ov_get (overrides_of hasA hasB (matrix_recs n m)) i j.
+Proof. exact assoc_override_relabel. Qed.
+Print Assumptions C14_assoc_override_relabel.
+
 (* ------------------------------------------------------------------ new_binary, subset *)
 
 Theorem C14_new_binary : forall (B : Type) (d b : B) i j, (i < 2)%nat -> (j < 2)%nat ->
